@@ -209,6 +209,20 @@ CHECKS["C19"] = {
             "dispatched by quiescence is a violation; recording backends honour their context (ok = context alive at return)",
     "technique": "TLC design check of the event pipeline model + TLC trace validation of the real event path under TLC-generated schedules",
 }
+CHECKS["C20"] = {
+    "text": "LambdaExtension.tla models the heartbeat (Flush, then WaitForFlush -> GET /event/next), the telemetry handler, the capacity-1 "
+            "notification channel, the consolidator hand-over and the forwarder's attempt / back-off / give-up loop followed by the "
+            "notification, composed with the LambdaProp monitor (no next request before the runtime-done signal, before every due datapoint "
+            "has an answered upstream request, or while one is in flight; no delivery after the next request; first request and progress; "
+            "init-error reported); TLC checks all interleavings and refutes three deviations. TLC-generated invocation histories drive the "
+            "real pkg/lambda extension around a real forwarder-mode server on loopback sockets against a fake runtime API and a fake "
+            "upstream (refusing, dropping, slow, given up); TLC validates the observed request order.",
+    "design_ref": "6/C20",
+    "note": "real time and real sockets (net/http servers and the manager's own client cannot run under virtual time); a datapoint is accepted "
+            "when the extension's HTTP ingestion endpoint answers 202 (UDP has no observable acceptance point without a hook); the initial "
+            "flush is observed through its consequence, the first next request",
+    "technique": "TLC design check of the extension model + TLC trace validation of the real extension under TLC-generated invocation histories",
+}
 NOT_APPLICABLE = [{"property_id": p, "reason": "check not built yet (build in progress; see DESIGN.md Appendix B for the order)"}
                   for p in ALL if p not in CHECKS]
 ENGINES[0]["serves_properties"] = sorted(CHECKS)
